@@ -46,6 +46,9 @@ func (pp *PushPromise) Deserialize(fr *FrameHeader) error {
 		if err != nil {
 			return err
 		}
+
+		// What is kept has no padding, so the header must not say it has.
+		fr.SetFlags(fr.Flags().Del(FlagPadded))
 	}
 
 	// payload, not fr.payload: cutting the padding shortens it, and the bytes
